@@ -119,6 +119,7 @@ class Kernel:
         self.counters = collections.Counter()   # faults fired / probes
         self.listeners = []        # callables(event tuple) called on each log
         self.stop_requested = None
+        self.harness_exc = None    # set by a seam of the simulated OS when the simulator itself failed
         self.shape = hashlib.sha1()
         # fault "stall": a slow thread or a slow process.  With probability 1/stall_den per step a
         # runnable actor (or every actor of its simulated process) is not scheduled for a drawn
